@@ -290,6 +290,9 @@ class Search:
         return segs
 
 
+from facts import READONLY_PTR_FUNCS
+
+
 class Monitor:
     def elem(self, m, pt, e, s):
         return m
@@ -364,6 +367,12 @@ class GateMonitor(Monitor):
                         m = 0
                     elif k == "un" and n["op"] in ("post++", "post--", "pre++", "pre--") and strip(n["e"]).get("k") == "ref" and strip(n["e"])["id"] in kill:
                         m = 0
+                    elif k == "call" and n.get("fn") not in READONLY_PTR_FUNCS:
+                        # an out-parameter: `f(&x)` may redefine x
+                        for a in n.get("a", []):
+                            a = strip(a)
+                            if a.get("k") == "un" and a.get("op") == "&" and strip(a["e"]).get("k") == "ref" and strip(a["e"]).get("id") in kill and a.get("mut", True):
+                                m = 0
         if self.est_elem is not None and self.est_elem(pt, e):
             return -1
         return m
